@@ -255,6 +255,25 @@ theorem C14_source_gap_skipped_neb (pj : PJ) (hbuf : BufOK pj) (lim : Nat) {a b 
   exact sameNE_of_simNE t1 t2 (nextElementBytes_safe pj (lim - b) { lim := lim, off := b } (lim - a + 1 - k)
     (Nat.le_refl _) (by omega) hl)
 
+/-- **… and neither does `Object.NextElement`** (the same composition with `GoApi.nextElement_sim`, the `NextElement` clause of
+    `C12_api_follows_source`: `NextElement` calls `NextElementBytes` and converts the name).  One more unit of interpreter
+    fuel for the call. -/
+theorem C14_source_gap_skipped_ne (pj : PJ) (hbuf : BufOK pj) (lim : Nat) {a b : Nat} (g : Gap pj a b) (hb : b ≤ lim)
+    (hl : lim ≤ pj.tape.size) (d0 : Iter) (fuel : Nat) (hf : lim - a + 2 ≤ fuel) :
+    SameNE (runFun goFuns goObject_NextElement fuel ⟨neEnv { lim := lim, off := a } d0 pj, pj.tape⟩)
+      (runFun goFuns goObject_NextElement fuel ⟨neEnv { lim := lim, off := b } d0 pj, pj.tape⟩) := by
+  obtain ⟨k, hk, h⟩ := C14_gap_skipped_neb pj lim g hb
+  have hab := g.1
+  have hm := h (lim - a + 1 - k)
+  rw [show lim - a + 1 - k + k = lim - a + 1 by omega] at hm
+  have t1 := SJ.GoApi.nextElement_sim pj hbuf { lim := lim, off := a } d0 _ hl fuel (lim - a + 1) hf (Nat.le_refl _)
+    (NEInit_neEnv pj _ d0)
+  have t2 := SJ.GoApi.nextElement_sim pj hbuf { lim := lim, off := b } d0 _ hl fuel (lim - a + 1 - k)
+    (by show lim - b + 2 ≤ fuel; omega) (by show lim - b + 1 ≤ lim - a + 1 - k; omega) (NEInit_neEnv pj _ d0)
+  rw [hm] at t1
+  exact sameNE_of_simNE t1 t2 (nextElementBytes_safe pj (lim - b) { lim := lim, off := b } (lim - a + 1 - k)
+    (Nat.le_refl _) (by omega) hl)
+
 end GapNEB
 
 /-! ## 3. C13 / C14 — edit, then read back -/
@@ -327,8 +346,10 @@ theorem marshal_reader (pj : PJ) (doc : LVal) (hok : Ok pj doc) (hfl : FloatsOk 
     located document `v` (gaps anywhere) with the receiver on the two-word scalar node at `q` whose tag passes the gate:
     running the regenerated `goIter_SetInt` with the argument `z` returns `nil`, and on the tape it leaves — read with the
     unchanged string buffer and message —
+    * the receiver is where it was, now with tag `'l'` and `cur = uint64(z)`;
     * **typed read-back**: running the regenerated `Iter.Int` on the receiver the run left returns `int64(uint64(z))` — `z`
-      itself when `−2^63 ≤ z < 2^63` — and `nil` (`Iter.Int` via its tie `GoNum`, `C12_source_int_exact`);
+      itself when `−2^63 ≤ z < 2^63` (a Go `int64` always is) — and `nil`; receiver and tape untouched (`Iter.Int` via its tie
+      `GoNum`, `C12_source_int_exact`);
     * **whole-document read-back**: from ANY iterator `j` standing on the document (`OnNode`) whose view lies inside the
       tape, the regenerated `Iter.MarshalJSONBuffer` returns `dst ++` the canonical text of `v` with exactly the node at `q`
       replaced by the integer, and `nil`; the iterator standing on the document's first word with the whole tape as its
@@ -345,12 +366,15 @@ theorem marshal_reader (pj : PJ) (doc : LVal) (hok : Ok pj doc) (hfl : FloatsOk 
 theorem C13_source_setInt_then_read (pj : PJ) (v : LVal) (hok : Ok pj v) (q : Nat) (hnode : HasNode q (q + 2) v) (i : Iter)
     (hoff : i.off = q + 1) (hview : i.off < i.lim) (hl : i.lim ≤ pj.tape.size)
     (ht : inCase (caseOf swSetInt 0) i.t = true) (z : Int) (fuel : Nat) (hfl : FloatsOk v) (hb : BufOK pj) :
-    ∃ s i', runFun goFuns goIter_SetInt fuel
+    ∃ s, runFun goFuns goIter_SetInt fuel
         { env := envOf "i" i ++ [("Strings.B", .bytes pj.strings), ("v", .int z)], tape := pj.tape } = .ret s [.bool false] ∧
-      s.env.get "Strings.B" = some (.bytes pj.strings) ∧ s.tape.size = pj.tape.size ∧ iterAt s.env "i" = some i' ∧
+      s.env.get "Strings.B" = some (.bytes pj.strings) ∧ s.tape.size = pj.tape.size ∧
+      iterAt s.env "i" = some { i with t := tagInteger, cur := ofInt64 z } ∧
       Ok { tape := s.tape, strings := pj.strings, msg := pj.msg } (substV q (.int (ofInt64 z) q) v) ∧
-      (∀ F, ∃ s', runFun goFuns goIter_Int F { env := envOf "i" i', tape := s.tape } =
-          .ret s' [.int (toInt64 (ofInt64 z)), .bool false] ∧ s'.tape = s.tape ∧ iterAt s'.env "i" = some i') ∧
+      (∀ F, ∃ s', runFun goFuns goIter_Int F
+            { env := envOf "i" { i with t := tagInteger, cur := ofInt64 z }, tape := s.tape } =
+          .ret s' [.int (toInt64 (ofInt64 z)), .bool false] ∧ s'.tape = s.tape ∧
+          iterAt s'.env "i" = some { i with t := tagInteger, cur := ofInt64 z }) ∧
       (-(2 ^ 63 : Int) ≤ z → z < 2 ^ 63 → toInt64 (ofInt64 z) = z) ∧
       (∀ (j : Iter) (dst : Bytes) (F : Nat),
         OnNode { tape := s.tape, strings := pj.strings, msg := pj.msg } (substV q (.int (ofInt64 z) q) v) j →
@@ -376,7 +400,7 @@ theorem C13_source_setInt_then_read (pj : PJ) (v : LVal) (hok : Ok pj v) (q : Na
   rw [he] at hok' hw1
   have hb' : BufOK { tape := s.tape, strings := pj.strings, msg := pj.msg } := hb
   have hfl' : FloatsOk (substV q (.int (ofInt64 z) q) v) := floatsOk_subst q _ (by simp only [FloatsOk]) v hfl
-  refine ⟨s, _, ho, by rw [hstr, hs], by rw [htp, hz], hi', hok', fun F => ?_, toInt64_ofInt64 z,
+  refine ⟨s, ho, by rw [hstr, hs], by rw [htp, hz], hi', hok', fun F => ?_, toInt64_ofInt64 z,
     marshal_reader _ _ hok' hfl' hb', ?_⟩
   · -- typed read-back
     have hoff' : ({ i with t := tagInteger, cur := ofInt64 z } : Iter).off <
@@ -471,7 +495,7 @@ theorem C14_source_delete_then_read_arr (pj : PJ) (p e : Nat) (es : LVals) (q : 
             ⟨arrEnv { tape := s.tape, strings := pj.strings, msg := pj.msg } { lim := e, off := p + 1 } dst, s.tape⟩ =
           .ret st [.bytes (dst ++ renderJ (erase (.arr p e (filterVs q 0 es)))), .bool false] ∧ st.tape = s.tape) := by
   obtain ⟨s, its, ho, hok', hsize, _⟩ := C14_source_array_delete pj (.arr p e es) hok p e es q
-    (by simp only [HasNode]; exact Or.inl ⟨rfl, rfl⟩) hok hsmall N hN fuel hf
+    (by simp [HasNode]) hok hsmall N hN fuel hf
   have hsub : substV p (.arr p e (filterVs q 0 es)) (.arr p e es) = .arr p e (filterVs q 0 es) := by
     simp only [substV, if_true]
   rw [hsub] at hok'
@@ -529,7 +553,7 @@ theorem C14_source_delete_then_read_obj (pj : PJ) (p e : Nat) (ms : LMems) (pred
           .ret st [.bytes (dst ++ renderJ (erase (.obj p e (filterMs pred ks 0 ms)))), .bool false] ∧
           st.tape = s.tape) := by
   obtain ⟨s, cbs, ho, hok', hsize, _⟩ := C14_source_object_delete_pred pj (.obj p e ms) hok p e ms pred ks
-    (by simp only [HasNode]; exact Or.inl ⟨rfl, rfl⟩) hok hsmall hb N hN fuel hf
+    (by simp [HasNode]) hok hsmall hb N hN fuel hf
   have hsub : substV p (.obj p e (filterMs pred ks 0 ms)) (.obj p e ms) = .obj p e (filterMs pred ks 0 ms) := by
     simp only [substV, if_true]
   rw [hsub] at hok'
@@ -579,5 +603,105 @@ theorem C14_source_delete_then_read (pj : PJ) (p e : Nat) :
     exact ⟨s, h1, h3, h4 ht⟩
 
 end EditRead
+
+/-! ## 4. C18 — `appendFloat` prints exactly the shortest-digits contract -/
+
+section C18
+open SJ.FloatFmt SJ.FloatFmtProofs SJ.Spec SJ.F64 SJ.F64Round SJ.GoFloatFmt SJ.Properties.C18
+
+/-- **What `appendFloat` prints, digit for digit, source level** (`C18_shortest_roundtrip`, `C18_fmtF_value`, `C18_fmtE_value` ∘
+    the `appendFloat` tie `C18_format_follows_source`).  For every finite, non-zero float64 bit pattern, with `abs` the
+    pattern without its sign bit: running `appendFloat(dst, f)` of `parsed_json.go` (with `appendFloatF`, `fmtF`, as printed
+    from /repo) returns `dst ++ txt` and `nil`, where
+    * `txt` is a number literal of the RFC 8259 grammar, nothing left over;
+    * its sign is the float's sign bit;
+    * its decimal value is EXACTLY `0.d₁d₂…dₙ × 10^dp` (`SameDecimal`: equal as rationals, not merely after rounding) for the
+      digit string `d₁…dₙ`, `dp` that the shortest-digits contract of `ryuFtoaShortest` / `strconv.AppendFloat(…,'e',-1,64)`
+      yields for `abs` (`FloatFmt.shortest`: the routines the Go code calls from the standard library, specified, not
+      translated — the tie takes them by this contract too): neither the plain form (`fmtF`, with its zero padding) nor the
+      exponent form (`fmtE` and the `e-0N` clean-up) adds, drops or alters a significant digit;
+    * that digit string is well formed — not empty, decimal digits, first digit non-zero — and, correctly rounded, reads
+      back to exactly `abs`.
+    This is what the three property theorems give beyond `C18_source_roundtrip` (which only says that the text rounds back
+    to the float): the identification of the printed decimal with the contract's digits, and the sign.  NOT given by any
+    property theorem, hence not stated: that the digit string has at most 17 digits, and that no shorter digit string
+    rounds to the float (`shortest` searches lengths 1, 2, … and takes the first hit, but no theorem of `Properties/C18`
+    states minimality).
+    Discharged: the exponent bound `|dp − 1| < 10^7` of `C18_fmtE_value` (from the magnitude guards of `roundDecimal`,
+    `roundDecimal_some`), finiteness and the 63-bit bound of `abs`.  Remaining: `fuelOK`, the interpreter's loop budget. -/
+theorem C18_source_shortest (dst : Bytes) (bits : UInt64) (fuel : Nat) (tape : Array UInt64)
+    (hf : fuelOK fuel bits) (hfin : F64.isFinite bits = true) (h0 : bits &&& 0x7fffffffffffffff ≠ 0) :
+    ∃ txt l st ds dp, runFun goFuns goappendFloat fuel ⟨[("dst", .bytes dst), ("f", .u64 bits)], tape⟩ =
+        .ret st [.bytes (dst ++ txt), .bool false] ∧ st.tape = tape ∧
+      Spec.numberLit txt.toList = some (l, []) ∧
+      (litValue l).1 = ((bits >>> 63) != 0) ∧
+      shortest (bits &&& 0x7fffffffffffffff) = { digits := ds, dp := dp } ∧
+      ds ≠ [] ∧ (∀ d ∈ ds, d < 10) ∧ ds.head? ≠ some 0 ∧
+      SameDecimal (litValue l).2.1 (litValue l).2.2 (natOfDigits ds) (dp - ds.length) ∧
+      F64.roundDecimal false (natOfDigits ds) (dp - ds.length) = some (bits &&& 0x7fffffffffffffff) := by
+  have habsn := abs_toNat bits
+  have habsf := abs_finite bits hfin
+  have heq := appendFloat_eq bits hfin
+  generalize hneg : ((bits >>> 63) != 0) = neg at *
+  generalize habs : bits &&& 0x7fffffffffffffff = abs at *
+  have hlt : abs.toNat < 2 ^ 63 := by rw [habsn]; exact Nat.mod_lt _ (by decide)
+  obtain ⟨wf, hrt⟩ := C18_shortest_roundtrip abs habsf hlt h0
+  obtain ⟨_, g1, g2, _⟩ := roundDecimal_some false _ _ _ h0 hrt
+  rw [numDigits_natOfDigits _ wf.ne wf.lt wf.hd] at g1 g2
+  have htie := (C18_format_follows_source dst bits fuel tape hf).1
+  by_cases hc : (decide (abs ≥ loBits) && decide (abs < hiBits)) = true ∨ abs = 0
+  · rw [if_pos hc] at heq
+    obtain ⟨l, hl, hsg, hsd⟩ := C18_fmtF_value neg (shortest abs) wf
+    obtain ⟨st, hrun, htape⟩ := htie _ heq
+    exact ⟨_, l, st, _, _, hrun, htape, hl, hsg, rfl, wf.ne, wf.lt, wf.hd, hsd, hrt⟩
+  · rw [if_neg hc] at heq
+    obtain ⟨l, hl, hsg, hsd⟩ := C18_fmtE_value neg (shortest abs) wf (by omega)
+    obtain ⟨st, hrun, htape⟩ := htie _ heq
+    exact ⟨_, l, st, _, _, hrun, htape, hl, hsg, rfl, wf.ne, wf.lt, wf.hd, hsd, hrt⟩
+
+end C18
+
+/-! ## the premises are satisfiable -/
+
+section Examples
+open SJ.Tables SJ.WalkLayout SJ.Lookup SJ.DeleteDoc SJ.GoObject SJ.GoDelete SJ.SourceLevelD SJ.SourceLevelE
+
+/-- The premises of `C12_source_firstType`, `C12_source_arrForEach` are satisfiable: on the tape of `["a","b"]`
+    (`SourceLevelD.arrPJ`), `FirstType` run on the source returns `TypeString`, and `ForEach` logs two callbacks. -/
+example : (∃ s, runFun goFuns goArray_FirstType 100 ⟨arrStore arrPJ { lim := 6, off := 1 } [], arrPJ.tape⟩ =
+      .ret s [.u8 typeString] ∧ s.tape = arrPJ.tape) ∧
+    ∃ s its, runFun goFuns goArray_ForEach 100 ⟨arrStore arrPJ { lim := 6, off := 1 } [("fn.log", .ints [])], arrPJ.tape⟩ =
+      .ret s [] ∧ GoDelete.logOf s.env = GoDelete.encIters its ∧ its.size = 2 := by
+  refine ⟨?_, ?_⟩
+  · obtain ⟨s, h1, h2⟩ := C12_source_firstType arrPJ 0 6 arrElems arr_ok 100 (by decide)
+    exact ⟨s, h1, h2⟩
+  · obtain ⟨s, its, h1, _, h3, h4, _⟩ := C12_source_arrForEach arrPJ 0 6 arrElems arr_ok 100 (by decide)
+    exact ⟨s, its, h1, h3, h4⟩
+
+/-- The premises of `C12_source_forEach` are satisfiable: on the tape of `{"a":{"b":7}}` (`Lookup.nestPJ`), `ForEach` with the
+    filter `["a"]` run on the source logs one callback: name length 1, the iterator standing on the inner object. -/
+example : ∃ s, runFun goFuns goObject_ForEach 100
+      ⟨objStore nestPJ { lim := 10, off := 1 } [#[97]] [("fn.log", .ints [])], nestPJ.tape⟩ = .ret s [.bool false] ∧
+    GoDelete.logOf s.env = encNI (#[97], skipIter nestPJ 10 (.obj 3 9 nestInner)) := by
+  obtain ⟨s, h1, _, h3, _⟩ := C12_source_forEach nestPJ 0 10 nestMems [#[97]] nest_ok
+    (Or.inr (by simp [memKeys, nestMems])) ⟨by decide, by decide⟩ 100 (by decide)
+  refine ⟨s, h1, ?_⟩
+  rw [h3]
+  simp [membersWithKeys, nestMems, encNIs, cbOf]
+
+/-- The premises of `C14_source_delete_then_read_arr` are satisfiable: deleting the first element of `["a","b"]` on the
+    source, then `ForEach` on the source over the tape left, makes one callback. -/
+example : ∃ s, runFun goFuns goArray_DeleteElems 100
+      ⟨arrStore arrPJ { lim := 6, off := 1 } [("fn.results", .bools (answers 5 (fun k => k == 0))), ("fn.log", .ints [])],
+        arrPJ.tape⟩ = .ret s [] ∧
+    ∃ s' its, runFun goFuns goArray_ForEach 100
+        ⟨arrStore { tape := s.tape, strings := arrPJ.strings, msg := arrPJ.msg } { lim := 6, off := 1 }
+          [("fn.log", .ints [])], s.tape⟩ = .ret s' [] ∧ GoDelete.logOf s'.env = GoDelete.encIters its ∧ its.size = 1 := by
+  obtain ⟨s, h1, _, _, h4, _⟩ := C14_source_delete_then_read_arr arrPJ 0 6 arrElems (fun k => k == 0) arr_ok (by decide) 5
+    (by decide) 100 (by decide)
+  obtain ⟨s', its, g1, _, g3, g4, _⟩ := h4 100 (by decide)
+  exact ⟨s, h1, s', its, g1, g3, by rw [g4]; rfl⟩
+
+end Examples
 
 end SJ.SourceLevelF
